@@ -22,8 +22,8 @@ VERIF = os.path.dirname(os.path.dirname(os.path.abspath(__file__)))
 RUN = "/tmp/mutrun"
 FILES = ["src/cfdppy/handler/source.py", "src/cfdppy/handler/dest.py", "src/cfdppy/filestore.py", "src/cfdppy/mib.py", "src/cfdppy/crc.py", "src/cfdppy/handler/common.py", "src/cfdppy/user.py", "src/cfdppy/handler/defs.py"]
 CHECKS = {
-    "src/cfdppy/handler/source.py": ["C02", "C07", "C08", "C19", "C12", "C03", "C04", "C13", "C14", "C15", "C10", "C20", "C11", "C16", "C01", "C09"],
-    "src/cfdppy/handler/dest.py": ["C02", "C05", "C06", "C03", "C04", "C12", "C13", "C14", "C15", "C10", "C18", "C20", "C11", "C01", "C16"],
+    "src/cfdppy/handler/source.py": ["C07", "C02", "C08", "C12", "C19", "C03", "C04", "C13", "C14", "C15", "C10"],
+    "src/cfdppy/handler/dest.py": ["C05", "C06", "C02", "C03", "C12", "C13", "C04", "C14", "C15", "C10", "C01"],
     "src/cfdppy/filestore.py": ["C09", "C17", "C02", "C05", "C16", "C07"],
     "src/cfdppy/mib.py": ["C14", "C04", "C11", "C02", "C19"],
     "src/cfdppy/crc.py": ["C09", "C02"],
@@ -143,12 +143,22 @@ def suite(jobs):
     print(len(res), "run,", n, "survived the suite")
 
 
-def checks(limit, tier="quick"):
+def _all_cres():
+    import glob
+
+    out = {}
+    for fn in glob.glob(os.path.join(RUN, "checks*.json")):
+        out.update(json.load(open(fn)))
+    return out
+
+
+def checks(limit, tier="quick", part=0, nparts=1):
     muts = json.load(open(os.path.join(RUN, "mutants.json")))
     sres = json.load(open(os.path.join(RUN, "suite.json")))
-    cpath = os.path.join(RUN, "checks.json")
-    cres = json.load(open(cpath)) if os.path.exists(cpath) else {}
-    root = os.path.join(RUN, "wtc")
+    cpath = os.path.join(RUN, f"checks{part}.json")
+    cres = _all_cres()
+    mine = json.load(open(cpath)) if os.path.exists(cpath) else {}
+    root = os.path.join(RUN, f"wtc{part}")
     if not os.path.exists(root):
         subprocess.run(f"git worktree add -q --detach {root} HEAD", shell=True, cwd=REPO, check=True)
     import re
@@ -169,7 +179,7 @@ def checks(limit, tier="quick"):
         for f in list(byfile):
             if byfile[f]:
                 order.append(byfile[f].pop(0))
-    for m in order[:limit]:
+    for m in order[part::nparts][:limit]:
         apply(m, root)
         caught, errs = None, []
         try:
@@ -182,15 +192,15 @@ def checks(limit, tier="quick"):
                     errs.append(c)
         finally:
             restore(m, root)
-        cres[str(m["id"])] = {"caught_by": caught, "harness_errors": errs}
-        json.dump(cres, open(cpath, "w"))
+        mine[str(m["id"])] = {"caught_by": caught, "harness_errors": errs}
+        json.dump(mine, open(cpath, "w"))
         print(m["id"], m["file"].split("/")[-1], m["line"], m["kind"], "->", caught or ("EXIT2:" + ",".join(errs) if errs else "NOT CAUGHT"), flush=True)
 
 
 def report():
     muts = json.load(open(os.path.join(RUN, "mutants.json")))
     sres = json.load(open(os.path.join(RUN, "suite.json")))
-    cres = json.load(open(os.path.join(RUN, "checks.json"))) if os.path.exists(os.path.join(RUN, "checks.json")) else {}
+    cres = _all_cres()
     surv = [m for m in muts if sres.get(str(m["id"])) == "survived"]
     done = [m for m in surv if str(m["id"]) in cres]
     caught = [m for m in done if cres[str(m["id"])]["caught_by"]]
@@ -216,6 +226,23 @@ if __name__ == "__main__":
     elif cmd == "suite":
         suite(int(sys.argv[sys.argv.index("--jobs") + 1]) if "--jobs" in sys.argv else 8)
     elif cmd == "checks":
-        checks(int(sys.argv[sys.argv.index("--limit") + 1]) if "--limit" in sys.argv else 10**9)
+        pt = sys.argv[sys.argv.index("--part") + 1].split("/") if "--part" in sys.argv else ["0", "1"]
+        checks(int(sys.argv[sys.argv.index("--limit") + 1]) if "--limit" in sys.argv else 10**9, part=int(pt[0]), nparts=int(pt[1]))
     elif cmd == "report":
         report()
+    elif cmd == "one":
+        # tools/mutate.py one <id> C15 C20 ... : run the named checks against one mutant
+        muts = json.load(open(os.path.join(RUN, "mutants.json")))
+        m = muts[int(sys.argv[2])]
+        root = os.path.join(RUN, "wtone")
+        if not os.path.exists(root):
+            subprocess.run(f"git worktree add -q --detach {root} HEAD", shell=True, cwd=REPO, check=True)
+        apply(m, root)
+        try:
+            print(m["file"], m["line"], m["kind"], "|", m["old"].strip(), "=>", m["new"].strip())
+            for c in sys.argv[3:]:
+                p = subprocess.run(f"./check {c} --tier quick", shell=True, cwd=VERIF, env={**os.environ, "CFDPPY_VERIF_SCRATCH_REPO": root}, capture_output=True, text=True, timeout=1800)
+                lines = [l for l in p.stdout.splitlines() if "sig=" in l or "HARNESS" in l]
+                print(c, "exit", p.returncode, lines[:2])
+        finally:
+            restore(m, root)
